@@ -148,6 +148,9 @@ def v3_specs():
     for sm in (0, 1, 2, 4, 255, 256, 2 ** 31 - 1):
         out.append({"t": "v3", "label": "secmodel-%d" % sm, "sec_model": sm})
     out.append({"t": "v3", "label": "encrypted-garbage", "enc_garbage": True})
+    # several large encrypted-looking datagrams inside ONE wait (they need not decrypt or match)
+    for n, ln in ((3, 1400), (4, 1400), (6, 1000), (12, 400), (3, 3000)):
+        out.append({"t": "v3", "label": "burst-%dx%d" % (n, ln), "burst": n, "enc_len": ln})
     out.append({"t": "v3", "label": "usm-trailing", "usm_trailing": True})
     out.append({"t": "v3", "label": "boots-big", "boots": 2 ** 40, "time": -5})
     return out
@@ -200,6 +203,14 @@ def realize(agent, req, spec):
         if req.version != 3:
             return None
         vbs = [_vb(SUB, B.enc_int(1))]
+        if "burst" in spec:
+            usm_in = req.m["usm"]
+            out = []
+            for k in range(spec["burst"]):
+                data = B.enc_octets(bytes((11 * j + k) & 0xFF for j in range(spec["enc_len"] - spec["enc_len"] % 8)))
+                usm = B.enc_usm(agent.engine_id, agent.boots, agent.time, usm_in["user"], bytes(12), bytes(range(8)))
+                out.append(B.enc_msg_v3((req.m["msg_id"] + 1 + k) & 0x7FFFFFFF, 65507, 3, usm, data))
+            return out
         if "salt_len" in spec or "enc_len" in spec or spec.get("enc_garbage"):
             # an encrypted-looking message with odd parameters
             usm_in = req.m["usm"]
